@@ -206,6 +206,8 @@ func C05(r *eng.Run) {
 	p.Marks = marks
 	p.SegMode = DrawSeg(r)
 	p.EOFWithData = r.T.Chance(sim.LFault, 1, 3) // the last bytes arrive together with io.EOF
+	p.ZeroReads = r.T.Chance(sim.LFault, 1, 8)
+	cfg.ZeroBuf = (cfg.App == AppReader || cfg.App == AppNextReader) && r.T.Chance(sim.LFault, 1, 8)
 	if lastOnWire && p.EOFWithData && payLen == 0 {
 		r.Probe("offending_header_ends_with_eof_in_same_read")
 	}
@@ -456,6 +458,9 @@ func C07(r *eng.Run) {
 	p := NewPipe(r, s.Wire)
 	p.Marks = MarksOf(s.Frames)
 	p.SegMode = DrawSeg(r)
+	p.EOFWithData = r.T.Chance(sim.LFault, 1, 6)
+	p.ZeroReads = r.T.Chance(sim.LFault, 1, 8)
+	cfg.ZeroBuf = cfg.App == AppReader && r.T.Chance(sim.LFault, 1, 8)
 	if cfg.App == AppReader && !cfg.OnContRead && r.T.Bool(sim.LCfg) {
 		c07Tolerant(r, cfg, s, p)
 		return
